@@ -70,176 +70,55 @@ Proof.
   destruct (dialect_eqb d Postgres); f_equal; exact H.
 Qed.
 
-Lemma gen_LikeQuoted_char d pre post s :
-  gen_LikeQuoted d pre post s = Some (quoted d (pre ++ flat_map (qls_char d) (clean_body d s) ++ post)).
+(* THE obligation that ties the proofs to the escaping inside _LikeQuoted.__sqlrepr__
+   (repaired by fbe34cd): the order of the three replaces matters (backslash first). *)
+Lemma lesc_pointwise x :
+  replace1 95 [92; 95] (replace1 37 [92; 37] (replace1 92 [92; 92] [x])) = like_escape_char x.
 Proof.
-  unfold gen_LikeQuoted. rewrite gen_string_char. cbn [obind]. unfold clean_string.
-  rewrite gen_unquote_quoted. cbn [obind]. rewrite gen_qls_char. cbn [obind].
-  rewrite gen_quote_char. reflexivity.
-Qed.
-
-Lemma flat_map_flat_map {A B C} (f : B -> list C) (g : A -> list B) (s : list A) :
-  flat_map f (flat_map g s) = flat_map (fun x => flat_map f (g x)) s.
-Proof. induction s as [|x s IH]; [reflexivity|]. cbn [flat_map]. now rewrite flat_map_app, IH. Qed.
-
-Lemma flat_map_ext_in' {A B} (f g : A -> list B) (s : list A) :
-  (forall x, In x s -> f x = g x) -> flat_map f s = flat_map g s.
-Proof.
-  induction s as [|x s IH]; intros H; [reflexivity|]. cbn [flat_map].
-  rewrite (H x (or_introl eq_refl)), IH; [reflexivity|]. intros y Hy. apply H. now right.
-Qed.
-
-(* ---------------------------------------------------------------- ANSI dialects: the pattern literal IS the rendering of the wanted pattern *)
-Lemma qls_ansi_char d c : bs_dialect d = false ->
-  flat_map (qls_char d) (esc_ansi_char c) = esc_ansi (like_escape_char c).
-Proof.
-  intros Hd. assert (Ed : like_esc_text d = [92]) by (destruct d; try discriminate Hd; reflexivity).
-  unfold esc_ansi_char, like_escape_char, qls_char. rewrite Ed.
-  change c_bsl with 92. change c_pct with 37. change c_us with 95.
-  case_ch c 39; [reflexivity|].
-  case_ch c 92; [reflexivity|].
-  case_ch c 37; [reflexivity|].
-  case_ch c 95; [reflexivity|].
-  neqb. rw_ne. cbn [orb flat_map app]. rw_ne. unfold esc_ansi. cbn [flat_map app]. unfold esc_ansi_char. rw_ne.
+  unfold like_escape_char. change c_bsl with 92. change c_pct with 37. change c_us with 95.
+  case_ch x 92; [reflexivity|].
+  case_ch x 37; [reflexivity|].
+  case_ch x 95; [reflexivity|].
+  neqb. unfold replace1. cbn [flat_map app]. rw_ne. cbn [flat_map app]. rw_ne. cbn [flat_map app]. rw_ne.
   reflexivity.
 Qed.
 
-Lemma esc_ansi_app a b : esc_ansi (a ++ b) = esc_ansi a ++ esc_ansi b.
-Proof. apply flat_map_app. Qed.
-Lemma esc_bs_app a b : esc_bs (a ++ b) = esc_bs a ++ esc_bs b.
-Proof. apply flat_map_app. Qed.
+Lemma lesc_char s :
+  replace1 95 [92; 95] (replace1 37 [92; 37] (replace1 92 [92; 92] s)) = like_escape s.
+Proof.
+  rewrite (replace1_pointwise 92). rewrite !replace1_flat_map. unfold like_escape.
+  induction s as [|x s IH]; [reflexivity|]. cbn [flat_map]. rewrite IH. f_equal. apply lesc_pointwise.
+Qed.
+
+(* the pattern operand is the ordinary rendering of prefix ++ like_escape s ++ postfix *)
+Lemma gen_LikeQuoted_char d pre post s :
+  gen_LikeQuoted d pre post s = Some (clean_string d (pre ++ like_escape s ++ post)).
+Proof.
+  unfold gen_LikeQuoted. cbv zeta. rewrite lesc_char, gen_string_char. reflexivity.
+Qed.
+
+Lemma pattern_literal_char d k s :
+  pattern_literal d k s = Some (clean_string d (wanted_pattern k s)).
+Proof. unfold pattern_literal, wanted_pattern. apply gen_LikeQuoted_char. Qed.
 
 Lemma k_fix_cases k : (k_prefix k = [] \/ k_prefix k = [37]) /\ (k_postfix k = [] \/ k_postfix k = [37]).
 Proof. destruct k; cbn; tauto. Qed.
 
-Lemma esc_ansi_fix (a : str) : a = [] \/ a = [37] -> esc_ansi a = a.
-Proof. intros [->| ->]; reflexivity. Qed.
-Lemma esc_bs_fix (a : str) : a = [] \/ a = [37] -> esc_bs a = a.
-Proof. intros [->| ->]; reflexivity. Qed.
-
-Lemma pattern_literal_ansi d k s : bs_dialect d = false ->
-  pattern_literal d k s = Some (clean_string d (wanted_pattern k s)).
+(* a NUL is in the pattern exactly when it is in the argument *)
+Lemma contains_nul_like_escape s : contains 0 (like_escape s) = contains 0 s.
 Proof.
-  intros Hd. unfold pattern_literal. rewrite gen_LikeQuoted_char. f_equal.
-  unfold clean_string, clean_body. rewrite Hd. f_equal.
-  unfold wanted_pattern. destruct (k_fix_cases k) as [Hp Hq].
-  rewrite !esc_ansi_app, (esc_ansi_fix _ Hp), (esc_ansi_fix _ Hq). f_equal. f_equal.
-  unfold esc_ansi at 1. rewrite flat_map_flat_map. unfold like_escape, esc_ansi at 1. rewrite flat_map_flat_map.
-  apply flat_map_ext_in'. intros x _. fold (esc_ansi (like_escape_char x)). now apply qls_ansi_char.
+  induction s as [|c s IH]; [reflexivity|].
+  unfold like_escape. cbn [flat_map]. fold (like_escape s). rewrite contains_app, contains_cons, IH. f_equal.
+  unfold like_escape_char. destruct ((c =? c_bsl) || (c =? c_pct) || (c =? c_us)); cbn [contains existsb];
+    rewrite ?orb_false_r; reflexivity.
 Qed.
 
-(* ---------------------------------------------------------------- postgres: the same, for arguments without control characters *)
-Lemma qls_pg_char c : is_ctrl c = false ->
-  flat_map (qls_char Postgres) (esc_bs_char c) = esc_bs (like_escape_char c).
+Lemma contains_nul_wanted k s : contains 0 (wanted_pattern k s) = contains 0 s.
 Proof.
-  intros Hc. unfold is_ctrl in Hc.
-  unfold esc_bs_char, like_escape_char, qls_char, like_esc_text. cbn [dialect_eqb].
-  change c_bsl with 92. change c_pct with 37. change c_us with 95.
-  case_ch c 39; [reflexivity|].
-  case_ch c 92; [reflexivity|].
-  case_ch c 37; [reflexivity|].
-  case_ch c 95; [reflexivity|].
-  assert ((c =? 0) = false) by lia. assert ((c =? 8) = false) by lia. assert ((c =? 10) = false) by lia.
-  assert ((c =? 13) = false) by lia. assert ((c =? 9) = false) by lia.
-  neqb. rw_ne. cbn [orb flat_map app]. rw_ne. unfold esc_bs. cbn [flat_map app]. unfold esc_bs_char. rw_ne.
-  reflexivity.
-Qed.
-
-Lemma ctrl_free_in s x : ctrl_free s = true -> In x s -> is_ctrl x = false.
-Proof.
-  unfold ctrl_free. intros H Hin. apply negb_true_iff in H.
-  destruct (is_ctrl x) eqn:E; [|reflexivity].
-  assert (existsb is_ctrl s = true) by (apply existsb_exists; now exists x). congruence.
-Qed.
-
-Lemma pattern_literal_pg k s : ctrl_free s = true ->
-  pattern_literal Postgres k s = Some (clean_string Postgres (wanted_pattern k s)).
-Proof.
-  intros Hc. unfold pattern_literal. rewrite gen_LikeQuoted_char. f_equal.
-  unfold clean_string, clean_body. cbn [bs_dialect]. f_equal.
-  unfold wanted_pattern. destruct (k_fix_cases k) as [Hp Hq].
-  rewrite !esc_bs_app, (esc_bs_fix _ Hp), (esc_bs_fix _ Hq). f_equal. f_equal.
-  unfold esc_bs at 1. rewrite flat_map_flat_map. unfold like_escape, esc_bs at 1. rewrite flat_map_flat_map.
-  apply flat_map_ext_in'. intros x Hx. fold (esc_bs (like_escape_char x)).
-  apply qls_pg_char. now apply (ctrl_free_in s).
-Qed.
-
-Lemma ctrl_free_nul_wanted k s : ctrl_free s = true -> contains 0 (wanted_pattern k s) = false.
-Proof.
-  intros Hc. unfold wanted_pattern. destruct (k_fix_cases k) as [Hp Hq].
-  rewrite !contains_app.
+  unfold wanted_pattern. destruct (k_fix_cases k) as [Hp Hq]. rewrite !contains_app, contains_nul_like_escape.
   assert (contains 0 (k_prefix k) = false) as -> by (destruct Hp as [-> | ->]; reflexivity).
   assert (contains 0 (k_postfix k) = false) as -> by (destruct Hq as [-> | ->]; reflexivity).
-  rewrite orb_false_r. cbn [orb].
-  induction s as [|c s IH]; [reflexivity|].
-  unfold like_escape. cbn [flat_map]. fold (like_escape s). rewrite contains_app.
-  assert (Hc1 : is_ctrl c = false) by (apply (ctrl_free_in (c :: s)); [exact Hc|now left]).
-  assert (Hc2 : ctrl_free s = true).
-  { unfold ctrl_free in *. cbn [existsb] in Hc. rewrite Hc1 in Hc. exact Hc. }
-  rewrite (IH Hc2), orb_false_r. unfold like_escape_char, is_ctrl in *.
-  destruct ((c =? c_bsl) || (c =? c_pct) || (c =? c_us)); cbn [contains existsb]; unfold c_bsl; lia.
-Qed.
-
-(* ---------------------------------------------------------------- mysql: decoded directly *)
-Lemma appr_app a b o : appr a (appr b o) = appr (a ++ b) o.
-Proof. destruct o as [[s r]|]; [cbn; now rewrite app_assoc|reflexivity]. Qed.
-Lemma consr_appr c o : consr c o = appr [c] o.
-Proof. destruct o as [[s r]|]; reflexivity. Qed.
-
-Lemma mysql_pattern_body : forall s t, ctrl_free s = true ->
-  mysql_body 39 (flat_map (qls_char Mysql) (esc_bs s) ++ t) = appr (like_escape s) (mysql_body 39 t).
-Proof.
-  induction s as [|c s IH]; intros t Hc.
-  - change (mysql_body 39 t = appr [] (mysql_body 39 t)).
-    destruct (mysql_body 39 t) as [[a b]|]; reflexivity.
-  - assert (Hc1 : is_ctrl c = false) by (apply (ctrl_free_in (c :: s)); [exact Hc|now left]).
-    assert (Hc2 : ctrl_free s = true).
-    { unfold ctrl_free in *. cbn [existsb] in Hc. rewrite Hc1 in Hc. exact Hc. }
-    specialize (IH t Hc2).
-    unfold esc_bs, like_escape. cbn [flat_map]. fold (esc_bs s). fold (like_escape s).
-    rewrite flat_map_app, <- app_assoc, <- appr_app, <- IH.
-    unfold esc_bs_char, like_escape_char, qls_char, like_esc_text. cbn [dialect_eqb].
-    change c_bsl with 92. change c_pct with 37. change c_us with 95. unfold is_ctrl in Hc1.
-    case_ch c 39; [cbn [N.eqb Pos.eqb flat_map app orb]; rewrite mysql_qq; apply consr_appr|].
-    case_ch c 92; [cbn [N.eqb Pos.eqb flat_map app orb]; rewrite !mysql_bs; cbn [mysql_unescape N.eqb Pos.eqb]; now rewrite appr_app|].
-    case_ch c 37; [cbn [N.eqb Pos.eqb flat_map app orb]; rewrite mysql_bs; reflexivity|].
-    case_ch c 95; [cbn [N.eqb Pos.eqb flat_map app orb]; rewrite mysql_bs; reflexivity|].
-    assert ((c =? 0) = false) by lia. assert ((c =? 8) = false) by lia. assert ((c =? 10) = false) by lia.
-    assert ((c =? 13) = false) by lia. assert ((c =? 9) = false) by lia.
-    neqb. rw_ne. cbn [orb flat_map app]. rw_ne. cbn [app].
-    rewrite mysql_other by assumption. apply consr_appr.
-Qed.
-
-Lemma mysql_fix (a : str) t : a = [] \/ a = [37] -> mysql_body 39 (a ++ t) = appr a (mysql_body 39 t).
-Proof.
-  intros [->| ->].
-  - cbn [app]. destruct (mysql_body 39 t) as [[x y]|]; reflexivity.
-  - cbn [app]. rewrite mysql_other by reflexivity. apply consr_appr.
-Qed.
-
-Lemma pattern_literal_mysql k s rest : ctrl_free s = true -> no_quote_start rest ->
-  exists lit, pattern_literal Mysql k s = Some lit /\
-              lex_mysql (lit ++ rest) = Some (wanted_pattern k s, rest) /\
-              exists r, lit ++ rest = 39 :: r.
-Proof.
-  intros Hc Hr. unfold pattern_literal. rewrite gen_LikeQuoted_char. eexists. split; [reflexivity|].
-  unfold quoted. cbn [dialect_eqb andb clean_body bs_dialect]. split; [|eexists; reflexivity].
-  cbn [app lex_mysql]. change (39 =? c_q) with true. cbv iota.
-  destruct (k_fix_cases k) as [Hp Hq].
-  rewrite <- !app_assoc. rewrite (mysql_fix _ _ Hp), mysql_pattern_body by exact Hc.
-  rewrite (mysql_fix _ _ Hq). cbn [app].
-  match goal with |- context [mysql_body 39 ?t] =>
-    replace (mysql_body 39 t) with (Some (@nil ch, rest)) by (symmetry; now apply mysql_end) end.
-  cbn [appr].
-  unfold wanted_pattern. now rewrite !app_nil_r.
-Qed.
-
-(* ---------------------------------------------------------------- every dialect *)
-Lemma like_ok_str_ok d k s : like_ok d k s = true -> bs_dialect d = false \/ d = Postgres ->
-  str_ok d (wanted_pattern k s) = true.
-Proof.
-  intros H Hd. destruct d; cbn [like_ok str_ok] in *; try reflexivity; try exact H.
-  change c_nul with 0. now rewrite (ctrl_free_nul_wanted k s H).
+  now rewrite orb_false_r.
 Qed.
 
 Definition lit_head (d : dialect) (text : str) : Prop :=
@@ -251,19 +130,9 @@ Lemma pattern_decodes d k s rest :
               lex_lit d (lit ++ rest) = Some (wanted_pattern k s, rest) /\
               lit_head d (lit ++ rest).
 Proof.
-  intros Hok Hr.
-  assert (ansi_case : bs_dialect d = false ->
-          exists lit, pattern_literal d k s = Some lit /\
-              lex_lit d (lit ++ rest) = Some (wanted_pattern k s, rest) /\ lit_head d (lit ++ rest)).
-  { intros Hd. exists (clean_string d (wanted_pattern k s)). split; [now apply pattern_literal_ansi|]. split.
-    - apply lex_lit_roundtrip; [apply like_ok_str_ok; tauto|exact Hr].
-    - apply clean_string_start. }
-  destruct d; try (apply ansi_case; reflexivity).
-  - destruct (pattern_literal_mysql k s rest Hok Hr) as (lit & E & L & r & Hh).
-    exists lit. split; [exact E|]. split; [exact L|]. exists r. now left.
-  - exists (clean_string Postgres (wanted_pattern k s)). split; [now apply pattern_literal_pg|]. split.
-    + apply lex_lit_roundtrip; [apply like_ok_str_ok; tauto|exact Hr].
-    + apply clean_string_start.
+  intros Hok Hr. exists (clean_string d (wanted_pattern k s)). split; [apply pattern_literal_char|]. split.
+  - now apply lex_lit_roundtrip.
+  - apply clean_string_start.
 Qed.
 
 (* ---------------------------------------------------------------- the whole LIKE expression *)
